@@ -126,12 +126,15 @@ SPEC["C18"] = {
      (c) the machine is a left fold over the token list that stops at the first failure, so the
          report depends only on the tokens up to the failing one (prefix determinism) and can
          never lie before a token the machine has not reached.
-   Which token is "the offending one" for each error category (unknown command, extension not
-   loaded, unexpected tag, surplus argument, test in command position ...) is the content of
-   [process]; the categories are exercised against the implementation by the check with the
-   expected offset computed independently.  'never before the first invalidating token' in the
+   Which token is "the offending one" for each error category: sieve/RejectFacts.v proves, after every
+   prefix of a script of the grammar (any nesting), that an unknown command, a command or tag whose extension is
+   not loaded, a tag the command does not take, a surplus or ill-typed argument, a test in command position and a
+   non-test in test position are reported at the first byte of THAT token with its length
+   (C18_offending_token, C18_unknown_command_at_token, C18_non_test_at_token, C18_argument_at_token); the
+   categories are also exercised against the implementation by the check with the expected offset computed
+   independently.  'never before the first invalidating token' in the
    viable-prefix sense needs C01_complete and is checked on the implementation (mutants).""",
-    "imports": SIEVE_IMPORTS + "From SV Require Import PositionFacts.\n",
+    "imports": SIEVE_IMPORTS + "From SV Require Import PositionFacts TotalFacts CompleteFacts CompleteTree RejectFacts RejectExamples.\n",
     "theorems": [
         ("C18_split_unique", "PositionFacts.split_lf_unique",
          "the specification of lines: split_lf is the only LF-free, non-empty decomposition that joins back to the text"),
@@ -149,6 +152,18 @@ SPEC["C18"] = {
          "error_pos = (line, column, length) of that place, as an address in the split text"),
         ("C18_prefix_determinism", "PositionFacts.prefix_determinism",
          "no reported position depends on what follows the failing token"),
+        ("C18_offending_token", "RejectFacts.reject_after_prefix",
+         "tokens the machine takes, then one it refuses: the report is (error, first byte of that token, its length), whatever follows"),
+        ("C18_unknown_command_at_token", "RejectFacts.unknown_command_rejected",
+         "unknown command / extension not loaded after any prefix of the grammar: reported at that identifier"),
+        ("C18_test_in_command_position_at_token", "RejectFacts.test_as_command_rejected",
+         "a test in command position: reported at that identifier"),
+        ("C18_non_test_at_token", "RejectFacts.test_position_rejected",
+         "a non-test (or no identifier at all) in test position: reported at that token"),
+        ("C18_argument_at_token", "RejectFacts.illegal_arguments_rejected",
+         "a tag the command does not take, a tag whose extension is not loaded, a surplus or ill-typed argument: reported at a token of the argument list"),
+        ("C18_offending_examples", "RejectExamples.ex_unknown",
+         "non-vacuity: line 3, column 4, length 3 for an unknown command inside a block, from the theorem"),
         ("raw", """(* non-vacuity: each token-level category on a concrete script, position = first byte of the token *)
 Example C18_unknown_command :
   error_pos (bs "keep;" ++ [10%N] ++ bs "  foo ""a"";") (parse gen_tables (bs "keep;" ++ [10%N] ++ bs "  foo ""a"";"))
@@ -188,12 +203,20 @@ SPEC["C01"] = {
      - for ALL inputs: comments, white space and line endings do not influence the verdict
        (C01_comment_insensitive, sieve/CommentFacts.v);
      - parse_total (props/C02.v): every other outcome is a SieveParseError, never a crash or a hang.
+     - the rejection side (sieve/RejectFacts.v): after EVERY prefix of a script of the grammar -- complete
+       commands and `if <test> {` / `else {` openers nested to any depth (wf_prefix; C01_prefix_ready) -- each
+       class of offending token named by the property stops the parse at that token, whatever follows: an
+       unknown command or one whose extension is not loaded, a test in command position, a token that cannot
+       start a command, '}' with no block open, anything but the name of a test after `if` (an action as a
+       test, an unknown name, a string), an argument list the specification refuses (wrong type, wrong order,
+       unknown tag, surplus argument, bad value of a tag's parameter: legal = LReject) at a token of one of
+       the arguments, '{' after a command that takes no block, a command name where ';' is missing;
    The converse (soundness of acceptance with respect to the RFC 5228 generic grammar) is NOT proved in
-   general: the structural theorem C01_accept_final_state is, and the executable oracle
+   general: the rejection classes above and the structural theorem C01_accept_final_state are, and the executable oracle
    harness/sieve_spec.py (generic grammar + frozen signatures) is compared with the implementation on the
    exhaustive token enumeration, the structure cases and the generated scripts by the check, and the model
    is compared with the implementation on the same inputs.""",
-    "imports": SIEVE_IMPORTS + "From SV Require Import ArgCheckFacts GateFacts PositionFacts TotalFacts CompleteFacts CompleteTree CompleteExamples CommentFacts.\n",
+    "imports": SIEVE_IMPORTS + "From SV Require Import ArgCheckFacts GateFacts PositionFacts TotalFacts CompleteFacts CompleteTree CompleteExamples CommentFacts RejectFacts RejectExamples.\n",
     "theorems": [
         ("C01_argcheck_correct", "ArgCheckFacts.argcheck_correct",
          "feeding an argument sequence to check_next_arg: complete / incomplete / rejected exactly as the specification says, with the same recorded values"),
@@ -221,6 +244,26 @@ SPEC["C01"] = {
          "every transition of the machine commutes with forgetting the pending and the recorded comments"),
         ("C01_script_example", "CompleteExamples.ex_wf",
          "non-vacuity on the tables generated from /repo: a script with require, if/elsif/else, anyof, not, nested blocks, tags, numbers and lists is derivable, and its tree is what parse returns"),
+        ("C01_prefix_ready", "RejectFacts.prefix_ready",
+         "after every prefix of a script of the grammar (complete commands, block openers, any depth) the machine stands between commands with the extensions required so far"),
+        ("C01_reject_after_prefix", "RejectFacts.reject_after_prefix",
+         "tokens the machine takes, then one it refuses: rejected with that error at that token, whatever follows"),
+        ("C01_unknown_command_rejected", "RejectFacts.unknown_command_rejected",
+         "an unknown command / a command whose extension is not loaded, at any depth"),
+        ("C01_test_as_command_rejected", "RejectFacts.test_as_command_rejected", "a test in command position"),
+        ("C01_no_command_start_rejected", "RejectFacts.no_command_start_rejected",
+         "a string, number, tag, bracket, comma, semicolon or '{' where a command must start"),
+        ("C01_stray_rcb_rejected", "RejectFacts.stray_rcb_rejected", "'}' with no block open"),
+        ("C01_test_position_rejected", "RejectFacts.test_position_rejected",
+         "after `if` / `elsif`: an unknown name, the name of an action or control (action as test), any other token"),
+        ("C01_args_stop", "RejectFacts.args_stop",
+         "an argument list the table interpreter refuses stops the machine at a token of one of the arguments (string lists: at the closing bracket)"),
+        ("C01_illegal_arguments_rejected", "RejectFacts.illegal_arguments_rejected",
+         "an action whose argument list the specification refuses (legal = LReject): rejected at a token of its arguments"),
+        ("C01_after_flat_name_rejected", "RejectFacts.after_flat_name_rejected",
+         "a block after a command that takes none; a command name where ';' is missing"),
+        ("C01_reject_examples", "RejectExamples.ex_unknown",
+         "non-vacuity on the generated tables (one of eleven examples in sieve/RejectExamples.v: prefix `require [\"fileinto\"]; if size :over 100K {`)"),
         ("C01_accept_final_state", "GateFacts.parse_accept_reachable",
          "an accepted script ends with an empty command stack, balanced brackets and nothing expected"),
         ("raw", """(* which commands of the current tables the interpreter theorem covers (re-checked on every run) *)
